@@ -6,20 +6,25 @@ from props import l3
 FUN = l3.FUN_ENC + l3.FUN_DEC
 
 def run(ctx):
-    kf = known_findings('C01'); defs = kf_defines(kf)
+    kf = l3.kfs('C01'); defs = kf_defines(kf)
     l3.world(ctx)
     quick = ['hb', 'basic', 'tsdata', 'group1']
     thorough = quick + ['basic_r', 'group2', 'bigint', 'ts2', 'all']
     for shape in (quick if ctx.tier == 'quick' else thorough):
-        l3.harness(ctx, 'C01_rt_%s' % shape, 'C01_rt.c', shape, defs + ['C02_ORDER'], functions=FUN, timeout=1200 if ctx.tier == 'quick' else 3000,
-                   desc='d = factory(encode(m)) succeeds, holds the fields/values/group shape of m; encode(d) is byte-identical; the wire-format (C02 ordering) clauses hold on encode(m)')
+        l3.harness(ctx, 'C01_rt_%s' % shape, 'C01_rt.c', shape, defs, functions=FUN, timeout=1200 if ctx.tier == 'quick' else 3000,
+                   desc='d = factory(encode(m)) succeeds, holds the fields/values/group shape of m; encode(d) is byte-identical')
     ctx.assumptions += ['operator new never fails', 'rb-tree rebalancing replaced by an unbalanced BST with the same in-order sequence',
                         'gmtime_r follows its contract (proleptic Gregorian UTC) for the instants the message carries',
                         'schema: schemas/mini.xml compiled by the f8c of the tree under test on every run; floats (C08 finding) are not part of the shapes; nesting depth 1']
     ctx.solve(jobs=4)
-    ctx.handle_failures(replay, kf)
+    ctx.handle_failures(replay, kf, classifier=classify)
     announce_known(ctx, kf, replay)
     return ctx.finish()
+
+def classify(cx, h):
+    """known-finding id of a reproduced counterexample, or None"""
+    c = cx.get('cx', cx); shape = h.shape if h is not None else c.get('shape')
+    return 'C01-data-nul' if shape and l3.data_has_nul(c, shape) else None
 
 def replay(ctx, cx, h=None):
     c = cx.get('cx', cx)
